@@ -5,6 +5,7 @@ Case = {"src": "values"|"optional"|"bgp"|"empty", "vars": [names], "rows": [[ter
               "group": None | [name | ["as", E, alias] …], "having": None | E, "order": [[E, desc] …],
               "limit": None|n, "offset": None|n}}
 termdesc = ["I", n] | ["I", n, "int"|…] | ["D", m, s] | ["F", m, s] (double) | ["F", m, s, "float"] | ["B", 0|1] | ["S", text, lang] | ["U", local] | ["N", label]
+         | ["T", y, mo, d, h, mi, s, tz minutes|None] (xsd:dateTime) | ["Y", y, mo, d] (xsd:date)
 E = ["v", name] | ["c", termdesc] | ["+", E, E] | ["-", E, E] | ["cmp", op, E, E]
   | ["agg", kind, distinct, "*"|E, sep|None]
 
@@ -38,7 +39,7 @@ AUDIT = "RV/C08/Audit.lean"
 DRIVER = "drv_c08"
 CASES = {"quick": 1100, "thorough": 40000, "search": 12000}
 RULE = ("random SELECT queries (put as text, prepared object, with initNs/base/initBindings, to a Graph / Dataset / union / aggregate) = (VALUES | VALUES+OPTIONAL over a graph | BGP | empty BGP) producing 0-9 solutions over 1-3 "
-        "variables with unbound cells, mixed kinds and datatypes, duplicates, falsy terms; modifiers DISTINCT/REDUCED, "
+        "variables with unbound cells, mixed kinds and datatypes (numerics, booleans, plain / language-tagged strings, xsd:dateTime with and without timezone, xsd:date), duplicates, falsy terms; modifiers DISTINCT/REDUCED, "
         "projection with (expr AS ?v), ORDER BY 0-3 keys ASC/DESC, LIMIT/OFFSET, GROUP BY 0-2 keys or the implicit group, "
         "the seven aggregates with/without DISTINCT, aggregates inside arithmetic, HAVING, ORDER BY on aggregates and aliases; "
         "non-trivial = at least one solution and at least one modifier or aggregate did real work "
@@ -47,6 +48,7 @@ RULE = ("random SELECT queries (put as text, prepared object, with initNs/base/i
 ASSUMPTIONS = [
     "the WHERE pattern's solution sequence is the listed rows (checked on every case against rdflib itself: SELECT of all variables)",
     "CPython sorted() is a stable sort (the model uses insertion sort; on a strict weak order every stable sort gives the same list)",
+    "CPython's datetime module is what Model.lean transcribes (_ymd2ord, _days_before_month, field checks, isoformat); compared on every case with temporal terms / probes (`cal` line)",
     "Python int/Decimal arithmetic is exact on the generated magnitudes; generated xsd:double values are small dyadic "
     "rationals so float sums are exact; AVG quotients (Decimal 28 digits / float) are compared after rounding to the "
     "nearest fraction with denominator <= 10^6",
@@ -70,8 +72,24 @@ def dec_lex(m, s):
     return sign + (digs[:-s] + "." + digs[-s:] if s else digs)
 
 
+def time_lex(d):
+    """the lexical form of a ["T", …] / ["Y", …] termdesc — the canonical one (what isoformat() writes: `+00:00`, never `Z`),
+    so that the term is the same whether rdflib meets it in the query text or in the graph"""
+    if d[0] == "Y":
+        return "%04d-%02d-%02d" % tuple(d[1:4])
+    tz = d[7]
+    z = "" if tz is None else "%s%02d:%02d" % ("-" if tz < 0 else "+", abs(tz) // 60, abs(tz) % 60)
+    return "%04d-%02d-%02dT%02d:%02d:%02d" % tuple(d[1:7]) + z
+
+
+def time_dt(d):
+    return "date" if d[0] == "Y" else "dateTime"
+
+
 def mk_term(d):
     k = d[0]
+    if k in "TY":
+        return Literal(time_lex(d), datatype=URIRef(XS + time_dt(d)))
     if k == "I":
         return Literal(str(d[1]), datatype=URIRef(XS + (d[2] if len(d) > 2 else "integer")))
     if k == "D":
@@ -91,6 +109,8 @@ def mk_term(d):
 
 def sparql_term(d):
     k = d[0]
+    if k in "TY":
+        return f'"{time_lex(d)}"^^<{XS}{time_dt(d)}>'
     if k == "I":
         return str(d[1]) if len(d) == 2 else f'"{d[1]}"^^<{XS}{d[2]}>'
     if k == "D":  # (rdflib's parser cannot read a negative DECIMAL token: not this property's business)
@@ -111,6 +131,8 @@ def sparql_term(d):
 def lex_of(d):
     """STR() of an input term"""
     k = d[0]
+    if k in "TY":
+        return time_lex(d)
     if k == "I":
         return str(d[1])
     if k == "D":
@@ -135,6 +157,10 @@ def tok(d):
     if d is None:
         return "-"
     k = d[0]
+    if k == "T":
+        return "T." + ".".join(str(x) for x in d[1:7]) + "." + ("-" if d[7] is None else str(d[7]))
+    if k == "Y":
+        return "Y." + ".".join(str(x) for x in d[1:4])
     if k == "I":
         return f"I.{d[2] if len(d) > 2 else 'integer'}.{d[1]}"
     if k == "D":
@@ -144,7 +170,7 @@ def tok(d):
     if k == "B":
         return f"B.{d[1]}"
     if k == "S":
-        return f"S.{cps(d[1])}.{cps(d[2])}"
+        return f"S.{cps(d[1])}.{cps(d[2].lower())}"  # language tags are case-insensitive: "a"@EN is the term "a"@en
     if k == "U":
         return "U." + cps(E_NS + d[1])
     if k == "N":
@@ -156,6 +182,8 @@ def canon_desc(d):
     if d is None:
         return "-"
     k = d[0]
+    if k in "TY":
+        return f"T:{time_dt(d)}:{time_lex(d)}"
     if k == "I":
         return f"Q:{d[2] if len(d) > 2 else 'integer'}:{d[1]}/1"
     if k == "D":
@@ -167,7 +195,7 @@ def canon_desc(d):
     if k == "B":
         return f"B:{d[1]}"
     if k == "S":
-        return f"S:{d[1]}@{d[2]}"
+        return f"S:{d[1]}@{d[2].lower()}"
     if k == "U":
         return "U:" + E_NS + d[1]
     return "N:" + d[1]
@@ -205,6 +233,8 @@ def canon_term(t):
                 return "L:" + t.n3()
         if dt == XS + "boolean" and t.value is not None:
             return f"B:{int(bool(t.value))}"
+        if dt in (XS + "dateTime", XS + "date") and t.value is not None:
+            return f"T:{dt[len(XS):]}:{str(t)}"
         if dt is None:
             return f"S:{str(t)}@{(t.language or '').lower()}"
         return "L:" + t.n3()
@@ -226,6 +256,11 @@ def canon_tok(tk):
         return "S:%s@%s" % (uncps(lex), uncps(lang))
     if k in "UN":
         return k + ":" + uncps(rest)
+    if k == "T":
+        f = rest.split(".")
+        return canon_desc(["T"] + [int(x) for x in f[:6]] + [None if f[6] == "-" else int(f[6])])
+    if k == "Y":
+        return canon_desc(["Y"] + [int(x) for x in rest.split(".")])
     return "?" + tk
 
 
@@ -433,6 +468,15 @@ def num_cell(dt, f):
     return f"Q:{dt}:{f.numerator}/{f.denominator}"
 
 
+def time_of(c):
+    """(aware?, datetime) of an xsd:dateTime cell, else None"""
+    if c.startswith("T:dateTime:"):
+        import datetime
+        v = datetime.datetime.fromisoformat(c[len("T:dateTime:"):])
+        return v.tzinfo is not None, v
+    return None
+
+
 def spec_lt(a, b):
     """SPARQL 15.1: True/False where the order of the two keys is fixed, None where it is left open"""
     ra, rb = cell_rank(a), cell_rank(b)
@@ -452,14 +496,20 @@ def spec_lt(a, b):
             return a[2:-1] < b[2:-1]
         if a.startswith("B:") and b.startswith("B:"):
             return a < b
-    return None  # blank nodes among themselves, language strings, mixed literal classes …
+        ta, tb = time_of(a), time_of(b)
+        if ta and tb and ta[0] == tb[0]:  # op:dateTime-less-than; one with and one without timezone: indeterminate
+            return ta[1] < tb[1]
+    return None  # blank nodes among themselves, language strings, mixed literal classes, xsd:date …
 
 
 def spec_same(a, b):
     if a == b:
         return True
     na, nb = num_of(a), num_of(b)
-    return bool(na and nb and na[1] == nb[1])
+    if na and nb and na[1] == nb[1]:
+        return True
+    ta, tb = time_of(a), time_of(b)  # one instant written with two UTC offsets
+    return bool(ta and tb and ta[0] and tb[0] and ta[1] == tb[1])
 
 
 def precedes(ka, kb, descs):
@@ -502,6 +552,11 @@ class Ev:
         na, nb = num_of(a), num_of(b)
         if na and nb:
             x, y = na[1], nb[1]
+            r = {"<": x < y, ">": x > y, "=": x == y, "!=": x != y, "<=": x <= y, ">=": x >= y}[op]
+            return {f"B:{int(r)}"}
+        ta, tb = time_of(a), time_of(b)
+        if ta and tb and ta[0] == tb[0]:  # two xsd:dateTime, both with or both without timezone
+            x, y = ta[1], tb[1]
             r = {"<": x < y, ">": x > y, "=": x == y, "!=": x != y, "<=": x <= y, ">=": x >= y}[op]
             return {f"B:{int(r)}"}
         if op in ("=", "!="):
@@ -938,6 +993,10 @@ def run_impl(case):
              "group_by_expr_as": int(any(e is not None and n is not None for n, e in group_items(q))),
              "order_by_unselected_key": int(any(e[0] == "v" and e[1] in [n for n, _ in group_items(q)] and
                                                 ["v", e[1]] not in q["proj"] for e, _d in q["order"]))}
+    ntime = sum(1 for r in case["rows"] for c in r if c is not None and c[0] in "TY")
+    stats["cases_with_dateTime_or_date"] = int(ntime > 0)
+    stats["cases_with_uppercase_language_tag"] = int(any(c is not None and c[0] == "S" and c[2] != c[2].lower() for r in case["rows"] for c in r))
+    stats["temporal_cells"] = ntime
     for p in q["proj"]:
         for a in _aggs_in(p[1] if p[0] == "e" else None):
             stats["agg_" + a[1] + ("_distinct" if a[2] else "")] = stats.get("agg_" + a[1] + ("_distinct" if a[2] else ""), 0) + 1
@@ -1016,7 +1075,10 @@ def run_impl(case):
         or (is_grouped(q) and len(frows) < len(sols)) or (q["having"] is not None))
     stats["nontrivial"] = int(bool(nt))
     stats["answer_rows"] = len(rows)
-    return {"obs": obs_lines(case, vars_, rows), "viol": viol, "nontrivial": bool(nt), "key": text + repr(case["rows"]),
+    cal = cal_line(case)
+    stats["calendar_lines"] = len(cal)
+    stats["calendar_cells"] = len(cal_terms(case))
+    return {"obs": cal + obs_lines(case, vars_, rows), "viol": viol, "nontrivial": bool(nt), "key": text + repr(case["rows"]),
             "stats": stats}
 
 
@@ -1042,6 +1104,48 @@ def _aggs_in(e):
     for x in e[1:]:
         out += _aggs_in(x)
     return out
+
+
+# ------------------------------------------------------------------ calendar functions (CPython datetime, as rdflib uses it)
+
+
+def cal_terms(case):
+    """the temporal termdescs whose calendar functions are compared: the distinct ones of the rows (well-typed by
+    construction) and the random probes of case['cal'] (possibly invalid field values)"""
+    out = []
+    for d in [c for r in case["rows"] for c in r if c is not None and c[0] in "TY"] + [list(x) for x in case.get("cal") or []]:
+        if d not in out:
+            out.append(d)
+    return out[:16]
+
+
+def cal_cell(d):
+    """valid? / aware? / the point on the time line / the lexical form, from rdflib's Literal and CPython's datetime:
+    Literal(lexical, datatype).value (None = ill-typed), date.toordinal(), datetime subtraction (what datetime._cmp uses)"""
+    import datetime
+    t = mk_term(d)
+    v = t.value
+    if v is None or t.ill_typed:
+        return "0"
+    if d[0] == "Y":
+        return f"1:{v.toordinal()}:{cps(str(t))}"
+    aware = v.tzinfo is not None and v.utcoffset() is not None
+    diff = v - datetime.datetime(1, 1, 1, tzinfo=datetime.timezone.utc if aware else None)
+    return f"1:{int(aware)}:{diff.days * 86400 + diff.seconds + 86400}:{cps(str(t))}"
+
+
+def cal_line(case):
+    import logging
+    ts = cal_terms(case)
+    if not ts:
+        return []
+    lg = logging.getLogger("rdflib.term")
+    old = lg.level
+    lg.setLevel(logging.CRITICAL)  # (ill-typed probes are logged with a traceback)
+    try:
+        return ["cal " + " ".join(cal_cell(d) for d in ts)]
+    finally:
+        lg.setLevel(old)
 
 
 # ------------------------------------------------------------------ model side
@@ -1108,6 +1212,8 @@ def model_lines(case):
     t.append(str(len(q["order"])))
     for e, d in q["order"]:
         t += ["D" if d else "A"] + expr_toks(e, ix)
+    if cal_terms(case):
+        lines.append("cal " + " ".join(tok(d) for d in cal_terms(case)))
     lines.append(" ".join(t))
     return lines
 
@@ -1116,6 +1222,9 @@ def select_model_obs(case, out):
     ans = out[-1]
     if ans.startswith("bad") or "#" not in ans:
         return ["model:" + ans]
+    cal = []
+    if cal_terms(case):  # an invalid value: only that it is invalid
+        cal = ["cal " + " ".join("0" if c.startswith("0:") else c for c in out[-2].split(" "))]
     ix = var_index(case)
     names = {i: n for n, i in ix.items()}
     vs, _, body = ans.partition("#")
@@ -1123,7 +1232,7 @@ def select_model_obs(case, out):
     rows = [tuple(canon_tok(c) for c in r.split(",")) for r in body.split(";")] if body != "" else []
     if not vars_:
         rows = [() for _ in rows]
-    return obs_lines(case, vars_, rows)
+    return cal + obs_lines(case, vars_, rows)
 
 
 # ------------------------------------------------------------------ generator
@@ -1134,6 +1243,34 @@ DBLS = [(15, 1), (25, 2), (20, 1), (-10, 1)]
 STRS = ["", "a", "b", "ab", "B", "10", "a"]
 IRIS = ["a", "b", "A", "r0"]
 BNS = ["b1", "b2"]
+# xsd:dateTime: without / with timezone, one instant under several UTC offsets (2020-01-01T00:00Z four ways), offsets that
+# move the instant into another day / month / year, leap days, the same local time with and without timezone
+DTS = [(2020, 1, 1, 0, 0, 0, None), (2020, 1, 1, 0, 0, 0, 0), (2020, 1, 1, 5, 30, 0, 330), (2019, 12, 31, 23, 0, 0, -60),
+       (2019, 12, 31, 10, 0, 0, -840), (2019, 12, 31, 23, 0, 0, None), (2020, 2, 29, 12, 0, 0, None), (2020, 3, 1, 0, 0, 0, None),
+       (2020, 3, 1, 0, 0, 0, 60), (2020, 2, 29, 23, 30, 0, 0), (1999, 12, 31, 23, 59, 59, 0), (2000, 1, 1, 0, 0, 0, None),
+       (2021, 1, 1, 0, 0, 1, -840), (1900, 3, 1, 0, 0, 0, None), (1900, 2, 28, 23, 59, 59, None), (2020, 1, 1, 0, 0, 0, -1),
+       (2020, 1, 1, 0, 1, 0, 0), (1, 1, 1, 0, 0, 0, None), (9999, 12, 31, 23, 59, 59, 0)]
+DATES = [(2020, 1, 1), (2019, 12, 31), (2020, 2, 29), (2020, 3, 1), (2000, 1, 1), (1900, 3, 1), (1900, 2, 28), (2100, 2, 28),
+         (2100, 3, 1), (2020, 12, 31), (2021, 1, 1)]
+
+
+def gen_cal_probe(rng):
+    y = rng.choice([rng.randint(1, 9999), rng.choice([1, 4, 100, 400, 1900, 2000, 2023, 2024, 2100, 9999])])
+    mo = rng.choice([rng.randint(1, 12), 2, 2, 12, 1, 13, 0][:rng.choice([1, 5, 7])])
+    d = rng.choice([rng.randint(1, 28), 28, 29, 30, 31, 1, 32, 0][:rng.choice([1, 6, 8])])
+    if rng.random() < 0.4:
+        return ["Y", y, mo, d]
+    h, mi, sec = rng.choice([rng.randint(0, 23), 0, 23, 24]), rng.choice([rng.randint(0, 59), 0, 59, 60]), rng.choice([rng.randint(0, 59), 0, 59, 60])
+    tz = rng.choice([None, None, 0, 330, -60, -840, 840, 1, -1, rng.randint(-839, 839)])
+    if tz is not None and (y < 2 or y > 9998):
+        tz = None  # (an offset that leaves year 1..9999 overflows CPython's datetime arithmetic: not modelled)
+    return ["T", y, mo, d, h, mi, sec, tz]
+
+
+def gen_time(rng, small=False):
+    if rng.random() < 0.25:
+        return ["Y"] + list(rng.choice(DATES[:3] if small else DATES))
+    return ["T"] + list(rng.choice(DTS[:5] if small else DTS))
 
 
 def gen_term(rng, profile, bn_ok):
@@ -1153,10 +1290,18 @@ def gen_term(rng, profile, bn_ok):
     if profile == "str":
         if r < 0.85:
             return ["S", rng.choice(STRS), ""]
-        return ["S", rng.choice(["a", "b"]), rng.choice(["en", "fr"])]
+        return ["S", rng.choice(["a", "b"]), rng.choice(["en", "fr", "en", "fr", "EN"])]
+    if profile == "time":  # xsd:dateTime / xsd:date, now and then something else
+        if r < 0.85:
+            return gen_time(rng)
+        return rng.choice([["I", 1], ["D", 15, 1], ["S", "2020-01-01", ""], ["B", 1], ["U", "a"], ["F", 15, 1]])
     if profile == "key":  # few distinct values, for grouping
+        if r < 0.15:
+            return gen_time(rng, True)
         return rng.choice([["I", 1], ["I", 2], ["S", "a", ""], ["U", "a"], ["I", 1], ["D", 10, 1], ["S", "", ""], ["B", 0]])
     # mixed
+    if r < 0.06:
+        return gen_time(rng)
     if r < 0.25:
         return ["I", rng.choice(INTS)]
     if r < 0.4:
@@ -1172,7 +1317,7 @@ def gen_term(rng, profile, bn_ok):
     if r < 0.92 and bn_ok:
         return ["N", rng.choice(BNS)]
     if r < 0.96:
-        return ["S", rng.choice(["a", "b"]), rng.choice(["en", "fr"])]
+        return ["S", rng.choice(["a", "b"]), rng.choice(["en", "fr", "en", "fr", "EN"])]
     # (derived integer datatypes stay in the purely numeric columns: next to strings Literal.__gt__ is not
     #  transitive — known finding C08-K1, exercised by its witness — and then the answer depends on the sort algorithm)
     return ["I", rng.choice(INTS)]
@@ -1182,7 +1327,7 @@ def gen_case(rng, tier, i):
     src = rng.choice(["values"] * 5 + ["optional"] * 3 + ["bgp"] * 2 + ["empty"])
     nv = rng.choice([1, 2, 2, 3, 3])
     names = ["a", "b", "c"][:nv]
-    profiles = [rng.choice(["int", "num", "num", "str", "key", "key", "mixed", "mixed"]) for _ in names]
+    profiles = [rng.choice(["int", "num", "num", "str", "key", "key", "mixed", "mixed", "time"]) for _ in names]
     nrows = 0 if src == "empty" else rng.choice([0, 1, 2, 3, 4, 5, 6, 7, 8, 9]) if src == "values" else rng.randint(1, 8)
     p_unbound = 0.0 if src == "bgp" else rng.choice([0, 0.1, 0.25, 0.5])
     rows = []
@@ -1204,6 +1349,8 @@ def gen_case(rng, tier, i):
     pa = 0.12 if tier == "thorough" else 0.05  # share of each public-surface axis (design.d/C08.md, Surface audit)
     q = gen_query(rng, vars_, names, profiles, pa)
     case = {"src": src, "vars": vars_, "rows": rows, "q": q}
+    if rng.random() < 0.3:  # random calendar probes (field values may be invalid): only their calendar functions are compared
+        case["cal"] = [gen_cal_probe(rng) for _ in range(rng.randint(1, 4))]
     # -- how the query is put: keyword options, a prepared query object evaluated three times
     if rng.random() < 2 * pa:
         modes = ["prepared", "prepared", "initNs", "base"] + (["initBindings", "initBindings"] if src == "values" else [])
@@ -1240,7 +1387,7 @@ def gen_const(rng):
 
 def gen_key_const(rng):
     return rng.choice([["I", 1], ["I", 2], ["S", "a", ""], ["U", "a"], ["D", 10, 1], ["S", "", ""], ["B", 0], ["U", "b"], ["I", 0],
-                       ["S", "b", ""], ["B", 1]])
+                       ["S", "b", ""], ["B", 1], ["T"] + list(DTS[1]), ["T"] + list(DTS[0]), ["Y"] + list(DATES[0])])
 
 
 def gen_agg(rng, names, profiles):
@@ -1370,6 +1517,8 @@ def gen_query(rng, vars_, names, profiles, pa=0.05):
 def shrink(case):
     q = case["q"]
     rows = case["rows"]
+    if case.get("cal"):
+        yield {k: v for k, v in case.items() if k != "cal"}
     for i in range(len(rows)):
         yield {**case, "rows": rows[:i] + rows[i + 1:]}
     for f, v in (("limit", None), ("offset", None), ("mod", None), ("having", None)):
@@ -1401,12 +1550,12 @@ def shrink(case):
 
 
 def _m_order_derived(case, result):
-    """ORDER BY over a derived numeric datatype (unsignedInt, short, int …) next to non-numeric literals:
+    """ORDER BY over a derived numeric datatype (unsignedInt, short, int, byte …) next to non-numeric literals (strings, booleans, dates):
     Literal.__gt__ orders cross-datatype pairs by datatype URI, which is not transitive with value order"""
     if not any(v.startswith("order") for v in result["viol"]):
         return False
     derived = any(c is not None and c[0] == "I" and len(c) > 2 for r in case["rows"] for c in r)
-    other = any(c is not None and c[0] in "SB" for r in case["rows"] for c in r)
+    other = any(c is not None and c[0] in "SBTY" for r in case["rows"] for c in r)  # (T, Y: the xsd:byte / xsd:date shape of K1)
     return derived and other
 
 
@@ -1418,7 +1567,7 @@ MATCHERS = {"order_derived_numeric": _m_order_derived}
 
 XSD_NUMERIC_NAMES = ["integer", "decimal", "float", "double", "byte", "int", "long", "negativeInteger", "nonNegativeInteger",
                      "nonPositiveInteger", "positiveInteger", "short", "unsignedByte", "unsignedInt", "unsignedLong", "unsignedShort"]
-TABLE_DT_NAMES = XSD_NUMERIC_NAMES[:4] + sorted(XSD_NUMERIC_NAMES[4:] + ["boolean", "string"])
+TABLE_DT_NAMES = XSD_NUMERIC_NAMES[:4] + sorted(XSD_NUMERIC_NAMES[4:] + ["boolean", "string", "date", "dateTime"])
 
 
 def TABLES():
@@ -1446,18 +1595,20 @@ def TABLES():
             raise ValueError(f"type_promotion({a}, {b}) = {r}: outside the table's datatypes")
         return r[len(XS):]
 
+    WELL = {"date": ("2020-01-01",), "dateTime": ("2020-01-01T00:00:00",)}  # a well-typed lexical form per datatype
+
     def acc(n):
         try:
-            numeric(Literal("1", datatype=U(n)))
+            numeric(Literal(WELL.get(n, ("1",))[0], datatype=U(n)))
             return True
         except SPARQLError:
             return False
 
     def numeric_term(n):  # compared in value space with other numeric datatypes?
         other = U("decimal" if n == "integer" else "integer")
-        for lex in ("1", "-1"):  # a lexical form that is well-typed for n
+        for lex in WELL.get(n, ("1", "-1")):  # a lexical form that is well-typed for n
             try:
-                if Literal(lex, datatype=U(n)).eq(Literal(lex, datatype=other)) is True:
+                if Literal(lex, datatype=U(n)).eq(Literal("1" if n in WELL else lex, datatype=other)) is True:
                     return True
             except TypeError:
                 pass
@@ -1494,7 +1645,7 @@ def TABLES():
     L = ["/- GENERATED on every run by harness/c08.py TABLES() by PROBING the live rdflib: type_promotion(t1, t2) on all",
          "   pairs, operators.numeric, Literal.eq, evalutils._val, one query per aggregate — do not edit. -/",
          "namespace RV.C08", "",
-         "/-- the XSD numeric datatypes, plus boolean and string -/",
+         "/-- the XSD numeric datatypes, plus boolean, string, date and dateTime -/",
          "inductive DT", "  " + " ".join("| " + n for n in names), "  deriving DecidableEq, Repr", "",
          "def DT.all : List DT := [" + ", ".join("." + n for n in names) + "]", "",
          "def DT.name : DT → String"] + [f'  | .{n} => "{n}"' for n in names] + ["",
